@@ -52,9 +52,24 @@ def main():
     except core.Timeout:
         print('%s TIMEOUT after %ds (not a verdict)' % (prop, limit))
         return 2
-    except Exception:
+    except Exception as err:
         signal.alarm(0)
         traceback.print_exc()
+        # An exception which comes out of the implementation while the harness drives it (a frame under the
+        # repository's src/) means the implementation no longer behaves as the model and the harness expect:
+        # that is a broken correspondence, reported as the brief requires. Anything else is a harness error.
+        repo_src = os.path.join(os.path.realpath(core.REPO), 'src') + os.sep
+        frames = traceback.extract_tb(err.__traceback__)
+        inside = [f for f in frames if os.path.realpath(f.filename).startswith(repo_src)]
+        if inside:
+            last = inside[-1]
+            chk.corr_break('the implementation raised %s in %s (%s:%d) while the harness was driving it: %s'
+                           % (type(err).__name__, last.name, os.path.relpath(last.filename, core.REPO), last.lineno, str(err)[:200]),
+                           {'traceback': traceback.format_exception(type(err), err, err.__traceback__)[-12:]})
+            try:
+                return chk.finish()
+            except Exception:
+                traceback.print_exc()
         print('%s HARNESS-ERROR (not a verdict)' % prop)
         return 2
 
